@@ -39,3 +39,16 @@ MUTANTS["C12"] = [
      "        tasks_done += 1\n        if not (pool.max_tasks and tasks_done > pool.max_tasks):\n            done_queue.put((worker_name, task, results, ret_exc))\n        tasks_done -= 1\n\n        tasks_done += 1"),
     ("exc-dropped-single-process", "annet/parallel.py", "                    task_result.exc = safe_exc\n                if self.capture_output:", "                    task_result.exc = None\n                if self.capture_output:"),
 ]
+
+MUTANTS["C01"] = [
+    ("sortkey-direct-negated", "annet/annlib/patching.py", '            item["raw_rule"],\n            item["order_direct"],\n        )', '            item["raw_rule"],\n            not item["order_direct"],\n        )'),
+    # ("undo_redo-add-first": yielding the addition before the removal in undo_redo is an equivalent mutant - make_patch re-sorts by (order, raw_rule, order_direct))
+    ("undo_redo-only-add", "annet/annlib/rulebook/common.py", "        for side in [Op.REMOVED, Op.ADDED]:", "        for side in [Op.ADDED]:"),
+    ("reverse-no-key-substitution", "annet/rulebook/patching.py", '    row = re.sub(r"\\*(/\\S+/)?", "{}", row, flags=flags)', '    row = re.sub(r"\\*(/\\S+/)?", "{}", row, count=1, flags=flags)'),
+    ("make_pre-group-by-row", "annet/annlib/patching.py", '        if key not in pre[raw_rule]["items"]:\n            pre[raw_rule]["items"][key] = {', '        key = (row,)\n        if key not in pre[raw_rule]["items"]:\n            pre[raw_rule]["items"][key] = {'),
+    ("ordered-no-undo-on-move", "annet/annlib/rulebook/common.py", "    if diff[Op.MOVED]:\n        # Сносим top-level блок", "    if diff[Op.MOVED] and diff[Op.MOVED][0][\"children\"]:\n        # Сносим top-level блок"),
+    ("permanent-drops-children-undo", "annet/annlib/rulebook/common.py", '        diff[Op.AFFECTED] += diff[Op.REMOVED]\n        diff[Op.REMOVED] = []', '        diff[Op.REMOVED] = []'),
+    ("rewrite-clears-on-partial-change", "annet/annlib/rulebook/common.py", "        if all(its[i].op == Op.AFFECTED for i, its in iter_diff(diff)):", "        if all(item.op == Op.AFFECTED for item in diff):"),
+    ("affected-children-dropped-when-moved", "annet/annlib/rulebook/common.py", "        key = Op.ADDED if diff.get(Op.ADDED) else Op.MOVED\n        # При модификации строки удаление нас не интересует, добавление проходит как affected\n        yield (True, diff[key][0][\"row\"], diff[key][0][\"children\"])",
+     "        key = Op.ADDED if diff.get(Op.ADDED) else Op.MOVED\n        yield (True, diff[key][0][\"row\"], diff[key][0][\"children\"] if key == Op.ADDED else None)"),
+]
